@@ -23,7 +23,9 @@ def build(r, name, n_enabled, mask):
         v.split_attrs = r.choice([0, 1, 2])
         v.attr_order_seed = r.randint(0, 7)
     spec = EnumSpec(name=name, variants=vs, derives=["EnumTable"], std_derives=["Debug", "PartialEq", "Clone", "Copy"])
-    gen.add_noise(r, spec, skip=("message",))
+    gen.add_noise(r, spec, skip=("message", "nest"))
+    if r.random() < 0.3:
+        spec.vis = r.choice(["pub(crate)", "pub(super)"])     # the enum already lives in `mod defs`; the table type follows its visibility
     gen.maybe_macro_wrap(r, spec)
     if not any(model.snakify(v.ident).startswith("r_") for v in spec.variants):
         gen.rawify(r, spec, explicit_names=False)
@@ -50,7 +52,13 @@ def glue(spec, thorough):
     ty = spec.ty()
     tab = spec.name + "Table"
     P = spec.path()
-    body = "pub mod defs {\n    use super::*;\n" + spec.render() + "\n}\nuse self::defs::*;\n"
+    import zlib
+    companion = ""
+    if zlib.crc32(spec.name.encode()) % 3 == 0:
+        # a second table enum (with a disabled variant of its own) in the same module: whatever the derive emits next to one
+        # enum must not collide with what it emits next to the other
+        companion = ("\n#[derive(Debug, PartialEq, Clone, Copy, strum::EnumTable)]\npub enum Companion%s { First, #[strum(disabled)] Off, Last }\n" % spec.name)
+    body = "pub mod defs {\n    use super::*;\n" + spec.render() + companion + "\n}\nuse self::defs::*;\n"
     body += "pub struct NoClone(pub u64);\n"
     body += "pub fn drive(m: &mut vmon::Mon) {\n"
     body += "    let key = |i: usize| -> %s { match i { %s, _ => unreachable!() } };\n" % (ty, ", ".join("%d => %s::%s" % (p, P, spec.variants[i].ident) for p, i in enumerate(en)))
